@@ -3,9 +3,11 @@ import RbModel.Proc.Syntax
 import RbModel.Proc.Ref
 import RbModel.Proc.Compile
 import RbModel.Proc.Vm
+import RbModel.Proc.WfB
 /-! Line-protocol handlers for the models with SUB / FUNCTION calls (requests `proc.*`):
 `proc.compare` (model generator = normalised real instruction list), `proc.run` (VM model on the model-compiled
-code), `proc.ref` (reference semantics), all on the program serialised by `harness/src/proc_sx.rs`. -/
+code), `proc.ref` (reference semantics), `proc.wf` (the executable premise checker `RbModel.Proc.progWfB` of
+`Proc.compile_correct`: `Thm/ProcWf.lean` proves it sound), all on the program serialised by `harness/src/proc_sx.rs`. -/
 namespace RbModel.Drv.Proc
 open RbModel RbModel.Proc RbModel.Proc.Compile
 open RbModel.Ast (Pos ty?)
@@ -84,6 +86,9 @@ def handle (cmd : String) (args : List Sexp) : Option String :=
       let (st, o) := RbModel.Proc.Ref.run fuel prog.toAst
       let out := Sexp.ofNats (st.out.out.map Char.toNat)
       pure s!"({outcomeStr o} {out} ())"
+  | "proc.wf", [prog] => do
+      let prog ← sprogram? prog
+      pure (if progWfB prog then "(wf true)" else "(wf false)")
   | _, _ => none
 
 end RbModel.Drv.Proc
